@@ -237,6 +237,17 @@ func C19(c *fw.Ctx) {
 				}
 			}
 		}
+		// "on that directive" includes how the file of the directive was reached: the include trace must be a chain of INCLUDE lines
+		// each of which leads to the file of the frame before it, ending in the root file
+		if pairs, ok := parseTrace(res); ok && len(pairs) > 0 {
+			c.Inc("cases", fmt.Sprintf("include-trace-depth-%d", len(pairs)-1), 1)
+			if kind, what := traceChainProblem(j.Files, j.Root, pairs); kind != "" {
+				c.Violate("ban:"+kind, fmt.Sprintf("%s with banned %v: %s", b.name, present, what), rp)
+			}
+			if relName(res, e.File) != j.Root && len(pairs) < 2 {
+				c.Violate("ban:trace:missing", fmt.Sprintf("%s with banned %v: the error is in the included file %s but Error() carries no include trace", b.name, present, relName(res, e.File)), rp)
+			}
+		}
 		if !named {
 			c.Violate("ban:names-wrong-kind", fmt.Sprintf("%s with banned %v present: message %q names none of them", b.name, present, e.Msg), rp)
 		}
